@@ -654,16 +654,22 @@ fn expand_brace_range(tokens: &mut types::Tokens) {
             incr = 1;
         }
 
+        // keep the text around the braces, e.g. `a{1..3}b` -> a1b a2b a3b
+        let (head, tail) = match caps.get(0) {
+            Some(m) => (&token[..m.start()], &token[m.end()..]),
+            None => ("", ""),
+        };
+
         let mut result: Vec<String> = Vec::new();
         let mut n = start;
         if start > end {
             while n >= end {
-                result.push(format!("{}", n));
+                result.push(format!("{}{}{}", head, n, tail));
                 n -= incr;
             }
         } else {
             while n <= end {
-                result.push(format!("{}", n));
+                result.push(format!("{}{}{}", head, n, tail));
                 n += incr;
             }
         }
